@@ -10,7 +10,16 @@
 (*        cies     : Seq(Int)         addresses of the CIEs of .eh_frame   *)
 (*        funcs    : Seq([id, kept, addr, len, hadFde])  the functions of  *)
 (*                   the inputs: whether retained, where, and whether an   *)
-(*                   input FDE described them]                             *)
+(*                   input FDE described them                              *)
+(*        closed   : BOOLEAN          funcs lists every function of the    *)
+(*                   inputs (FALSE: only the table-internal predicates     *)
+(*                   are evaluated)                                        *)
+(*        fmt      : Seq(Int)         format defects found by the observer *)
+(*                   (1 .eh_frame does not parse, 2 .eh_frame_hdr does not *)
+(*                   parse, 3 eh_frame_ptr is not the address of .eh_frame,*)
+(*                   4 version is not 1, 5 PT_GNU_EH_FRAME is not the      *)
+(*                   extent of .eh_frame_hdr, 6 the table does not fill    *)
+(*                   the section exactly)]                                 *)
 (* Each predicate is a set of offenders; it holds iff the set is empty.    *)
 (* The same operators are evaluated on the terminal states of the machine  *)
 (* of Part 2 (TLC, exhaustive) and, by EhFrameObs.tla, on images observed  *)
@@ -48,19 +57,24 @@ Bad_RowFde(t) ==
          \cup {<<i, j, t.rows[i].fde>> : <<i, j>> \in {p \in Idx(t.rows) \X Idx(t.rows) : p[1] < p[2] /\ t.rows[p[1]].fde = t.rows[p[2]].fde}}
 (* every FDE describes a retained function (exactly its extent) *)
 Bad_FdeRetained(t) ==
+    IF ~t.closed THEN {} ELSE
     {<<i, t.fdes[i].pc, t.fdes[i].len>> : i \in {j \in Idx(t.fdes) :
         ~\E f \in KeptFuncs(t) : f.hadFde /\ f.addr = t.fdes[j].pc /\ f.len = t.fdes[j].len}}
 (* every retained function that had an FDE still has (exactly) one *)
 Bad_Covered(t) ==
+    IF ~t.closed THEN {} ELSE
     {<<f.id, f.addr, Cardinality({i \in Idx(t.fdes) : t.fdes[i].pc = f.addr})>> : f \in {g \in KeptFuncs(t) :
         g.hadFde /\ Cardinality({i \in Idx(t.fdes) : t.fdes[i].pc = g.addr}) # 1}}
 (* every FDE's CIE pointer designates a CIE of the output *)
 Bad_Cie(t) == {<<i, t.fdes[i].cie>> : i \in {j \in Idx(t.fdes) : t.fdes[j].cie \notin Range(t.cies)}}
 
-Preds == <<"Count", "Sorted", "RowFde", "FdeRetained", "Covered", "Cie">>
+Bad_Format(t) == {<<c, 0>> : c \in Range(t.fmt)}
+
+Preds == <<"Count", "Sorted", "RowFde", "FdeRetained", "Covered", "Cie", "Format">>
 BadOf(c, t) ==
     CASE c = "Count" -> Bad_Count(t) [] c = "Sorted" -> Bad_Sorted(t) [] c = "RowFde" -> Bad_RowFde(t)
       [] c = "FdeRetained" -> Bad_FdeRetained(t) [] c = "Covered" -> Bad_Covered(t) [] c = "Cie" -> Bad_Cie(t)
+      [] c = "Format" -> Bad_Format(t)
 FailingPreds(t) == {i \in Idx(Preds) : BadOf(Preds[i], t) # {}}
 TablesOK(t) == FailingPreds(t) = {}
 
@@ -160,7 +174,7 @@ Done == pc = "done"
 Result ==
     LET fdePos == SelectSeq([n \in 1..Len(out) |-> n], LAMBDA n : out[n].kind = "fde")
         ciePos == SelectSeq([n \in 1..Len(out) |-> n], LAMBDA n : out[n].kind = "cie")
-    IN  [hdr |-> TRUE, fdeCount |-> Len(rows), rows |-> rows,
+    IN  [hdr |-> TRUE, closed |-> TRUE, fmt |-> <<>>, fdeCount |-> Len(rows), rows |-> rows,
          fdes |-> [n \in 1..Len(fdePos) |-> [addr |-> fdePos[n], pc |-> addrOf[out[fdePos[n]].fn], len |-> FnLen,
                                              cie |-> out[fdePos[n]].cie]],
          cies |-> ciePos,
